@@ -45,7 +45,9 @@ def generate(tier, seed):
     pairs = [(a, b) for a in PROGRAMS + WILD for b in PROGRAMS + WILD if a != b]
     rnd.shuffle(pairs)
     chosen = [(WILD[i], WILD[(i + 1) % len(WILD)]) for i in range(len(WILD))] + pairs[:60 if tier == 'quick' else 600]
-    for (l, r) in chosen + strong_examples():
+    many = [('', ':- 1 < 2. :- a = b. :- 3 != 3.'), (':- 1 < 2. :- a = b.', ''), ('p. q. r. s.', 'p :- q. q :- r. r :- s. s.'), ('p(X) :- q(X). q(X) :- r(X). r(1). r(2).', 'p(X) :- r(X). q(X) :- r(X). r(1..2). :- p(3).'),
+            ('a. b :- a. c :- b. d :- c. e :- d.', 'e. d :- e. c :- d. b :- c. a :- b.')]
+    for (l, r) in many + chosen + strong_examples():
         for rep in ('tau-star', 'mu'):
             for d in ('forward', 'backward'):
                 items.append({'family': 'strong', 'kind': 'strong', 'left': l, 'right': r, 'rep': rep, 'direction': d,
